@@ -22,7 +22,7 @@ KeysC == {<<>>, <<0>>, <<1>>, <<1, 0>>, <<1, 1>>, <<2>>}
 ValsA == {<<>>, <<7>>}
 ValsB == {<<7>>}
 PrefA == {<<>>, <<1>>}
-PrefB == {<<1>>, <<255>>}
+PrefB == {<<1>>, <<1, 255>>, <<255>>}
 
 Bounds == Keys \cup {Nil}
 Rest == SubSeq(it.items, it.pos + 1, Len(it.items))
@@ -62,6 +62,8 @@ View == <<store, batch, bstate, vsize, it.open, Rest>>
 (* the QEager expansion may buffer several deletions per call: explore a finite part *)
 Bounded == Len(batch) <= MaxBatch + Cardinality(Keys)
 BoundsS == {Nil, <<1>>}
+BoundsS2 == {Nil, <<>>, <<1>>}
+BoundsB == {Nil, <<1, 255>>, <<255>>}
 
 HalfOpen == RangeHalfOpen(Keys)
 
